@@ -43,6 +43,7 @@ THEOREMS = [
     "KrroodVerif.Eql.C01_not_exists_sound_complete_partial",
     "KrroodVerif.Eql.C01_not_forall_sound_complete_partial",
     "KrroodVerif.Eql.C01_forall_empty_error",
+    "KrroodVerif.Eql.C01_exists_no_keyError",
     "KrroodVerif.Eql.C01_quantProved_sound_complete",  # the decidable predicate the DRIVER evaluates per case (frag=ql)
     "KrroodVerif.Eql.ql_qinv",
     "KrroodVerif.Eql.qt_qinv2",
@@ -50,6 +51,8 @@ THEOREMS = [
     "KrroodVerif.Eql.exists_qinv",
     "KrroodVerif.Eql.forAll_qinv",
     "KrroodVerif.Eql.closed_eval",
+    "KrroodVerif.Eql.lclosed_eval",
+    "KrroodVerif.Eql.eval_fext",
     "KrroodVerif.Eql.satE_congr",
     "KrroodVerif.Eql.C01_quant_need_E1",
     "KrroodVerif.Eql.C01_quant_need_E2",
@@ -136,8 +139,13 @@ def gen_quant_family(rng):
             return ("and", a, G.gen_atom(rng, allv, kinds, 0, must=rng.choice(allv)))
         if k < 0.8:
             return ("not", a)
-        if k < 0.9:
+        if k < 0.86:
             return ("and", a, ("not", G.gen_atom(rng, allv, kinds, 0, must=rng.choice(allv))))
+        if k < 0.93:
+            # a negated conjunction whose second conjunct only holds `u` and a literal: a true cell leaves that literal
+            # node unbound, no variable (inside the fragment)
+            return ("not", ("and", G.gen_atom(rng, allv, kinds, 0, must=rng.choice(allv)), ("cmp", rng.choice(list(G.OPS)),
+                    (("var", qn) if kinds[qn] == "int" else ("attr", ("var", qn), "a")), ("lit", rng.randrange(0, 3)))))
         return ("not", ("and", a, G.gen_atom(rng, allv, kinds, 0, must=rng.choice(vs))))  # F-C01-11 shape: just outside
     kind = rng.choice(["exists", "forall", "not-exists", "not-forall"])
     if kind == "exists":
